@@ -170,7 +170,7 @@ def core_expr(draw, depth, names_later, names_any, allow_backtrack, mode, rules_
     def nonnull(e):
         if not peg.nullable(e, rules_null):
             return e
-        return ('right', ('lit', 'a'), e) if not peg.uses_backtrack(e) else ('lit', 'a')
+        return ('right', ('lit', 'a'), e) if not peg.uses_backtrack(e, rules_null) else ('lit', 'a')
 
     leaf_kinds = ['lit', 'lit', 'rx', 'ci', 'fail']
     if names_later or (guarded and names_any):
@@ -243,6 +243,6 @@ def core_grammar(draw, nrules=6, depth=4, mode='text'):
                            dict(rules_null)))
         rules[i] = ('rule', names[i], None, e)
         # conservative: unknown (earlier) refs count as nullable inside peg.nullable
-        rules_null[names[i]] = peg.nullable(e, rules_null)
+        rules_null[names[i]] = 'BT' if peg.uses_backtrack(e, rules_null) else peg.nullable(e, rules_null)
     g = peg.G(rules + [('rule', 'start', None, ('ref', 'R0'))], mode=mode)
     return g
